@@ -146,6 +146,7 @@ def main():
     seed = int(os.environ.get("VERIF_SEED", "0") or 0)
 
     if args.replay:
+        args.replay = os.path.abspath(args.replay)
         with open(args.replay) as f:
             vec = json.load(f)
         st, fails, out = native_replay(vec["_pkg"], vec["_harness"], args.replay)
